@@ -1390,41 +1390,41 @@ func (m *MapPollard) Write(w io.Writer) (int, error) {
 	// Write the total rows.
 	buf[0] = m.TotalRows
 	bytes, err := w.Write(buf[:1])
+	totalBytes += bytes
 	if err != nil {
 		return totalBytes, err
 	}
-	totalBytes += bytes
 
 	// Write the number of leaves.
 	binary.LittleEndian.PutUint64(buf[:], m.NumLeaves)
 	bytes, err = w.Write(buf[:])
+	totalBytes += bytes
 	if err != nil {
 		return totalBytes, err
 	}
-	totalBytes += bytes
 
 	// Write the count for the cache leaf elements in the map.
 	binary.LittleEndian.PutUint64(buf[:], uint64(m.CachedLeaves.Length()))
 	bytes, err = w.Write(buf[:])
+	totalBytes += bytes
 	if err != nil {
 		return totalBytes, err
 	}
-	totalBytes += bytes
 
 	// Write the map elements.
 	err = m.CachedLeaves.ForEach(func(k Hash, v uint64) error {
 		written, err := w.Write(k[:])
+		totalBytes += written
 		if err != nil {
 			return err
 		}
-		totalBytes += written
 
 		binary.LittleEndian.PutUint64(buf[:], v)
 		bytes, err = w.Write(buf[:])
+		totalBytes += bytes
 		if err != nil {
 			return err
 		}
-		totalBytes += bytes
 
 		return nil
 	})
@@ -1435,20 +1435,20 @@ func (m *MapPollard) Write(w io.Writer) (int, error) {
 	// Write the count for the node elements in the map.
 	binary.LittleEndian.PutUint64(buf[:], uint64(m.Nodes.Length()))
 	bytes, err = w.Write(buf[:])
+	totalBytes += bytes
 	if err != nil {
 		return totalBytes, err
 	}
-	totalBytes += bytes
 
 	// Write the node elements.
 	var leafBuf [33]byte
 	err = m.Nodes.ForEach(func(k uint64, v Leaf) error {
 		binary.LittleEndian.PutUint64(buf[:], k)
 		bytes, err := w.Write(buf[:])
+		totalBytes += bytes
 		if err != nil {
 			return err
 		}
-		totalBytes += bytes
 
 		copy(leafBuf[:32], v.Hash[:])
 		leafBuf[32] = 0
@@ -1456,10 +1456,10 @@ func (m *MapPollard) Write(w io.Writer) (int, error) {
 			leafBuf[32] = 1
 		}
 		bytes, err = w.Write(leafBuf[:])
+		totalBytes += bytes
 		if err != nil {
 			return err
 		}
-		totalBytes += bytes
 
 		return nil
 	})
@@ -1481,68 +1481,68 @@ func (m *MapPollard) Read(r io.Reader) (int, error) {
 
 	// Read the total rows.
 	bytes, err := io.ReadFull(r, buf[:1])
+	totalBytes += bytes
 	if err != nil {
 		return totalBytes, err
 	}
 	m.TotalRows = buf[0]
-	totalBytes += bytes
 
 	// Read the number of leaves.
 	bytes, err = io.ReadFull(r, buf[:])
+	totalBytes += bytes
 	if err != nil {
 		return totalBytes, err
 	}
-	totalBytes += bytes
 	m.NumLeaves = binary.LittleEndian.Uint64(buf[:])
 
 	// Read the count for the cache leaf elements in the map.
 	bytes, err = io.ReadFull(r, buf[:])
+	totalBytes += bytes
 	if err != nil {
 		return totalBytes, err
 	}
-	totalBytes += bytes
 	numCachedLeaves := binary.LittleEndian.Uint64(buf[:])
 
 	// Read elements and put them in the map.
 	var hash Hash
 	for i := 0; i < int(numCachedLeaves); i++ {
 		read, err := io.ReadFull(r, hash[:])
+		totalBytes += read
 		if err != nil {
 			return totalBytes, err
 		}
-		totalBytes += read
 
 		// Read the number of leaves.
 		bytes, err = io.ReadFull(r, buf[:])
+		totalBytes += bytes
 		if err != nil {
 			return totalBytes, err
 		}
-		totalBytes += bytes
 		m.CachedLeaves.Put(hash, binary.LittleEndian.Uint64(buf[:]))
 	}
 
 	// Read the count for the node elements in the map.
 	bytes, err = io.ReadFull(r, buf[:])
+	totalBytes += bytes
 	if err != nil {
 		return totalBytes, err
 	}
-	totalBytes += bytes
 	nodeCount := binary.LittleEndian.Uint64(buf[:])
 
 	var leafBuf [33]byte
 	for i := 0; i < int(nodeCount); i++ {
 		bytes, err := io.ReadFull(r, buf[:])
+		totalBytes += bytes
 		if err != nil {
 			return totalBytes, err
 		}
-		totalBytes += bytes
 		position := binary.LittleEndian.Uint64(buf[:])
 
 		read, err := io.ReadFull(r, leafBuf[:])
+		totalBytes += read
 		if err != nil {
 			return totalBytes, err
 		}
-		totalBytes += read
 
 		var hash Hash
 		copy(hash[:], leafBuf[:32])
